@@ -648,7 +648,7 @@ func verifC08_Conc() {
 	vMono = 0
 	nowFunc = vNow
 	cb := New(p)
-	verifRaceScope(cb, "CircuitBreaker")
+	verifRaceScopeDeep(cb, "CircuitBreaker")
 	// open it: two failures
 	_, id := cb.AcquirePermission()
 	cb.RecordResult(id, true, 0)
